@@ -8,30 +8,67 @@ Layers (all observe executions of code rebuilt from /repo/src):
   3. definedness differential on the production-flag library (outputs pre-filled with two poisons)
   4. the ASan+UBSan build of the real f2py module driven through the cImageD11 wrappers and Python callers by re-running the
      workloads of the C06/C07/C11/C12/C13/C14 checks inside an ASan process (checks the .pyf dimension declarations)
+  5. the same generated calls as layer 1 issued through every f2py wrapper of the ASan+UBSan module, on numpy arrays that live
+     in exactly-sized malloc blocks: the hidden dimension arguments are then computed by the wrapper from the .pyf
+     declarations, so a declaration that hands the kernel a larger extent than the array has runs into a red zone
+
+Input classes that must have been driven (layers 1 and 2 each; a missing class makes the verdict inconclusive): see REQUIRED.
 """
-import glob, hashlib, json, os, re, shutil, subprocess, tempfile
+import glob, hashlib, json, os, re, shutil, subprocess, tempfile, time
 from ..common import PY, VERIF, WORK, rng
 from .. import build
 
 TECHNIQUE = ("compiler sanitizers + instrumented access monitor: AddressSanitizer/UBSan on exactly-sized heap buffers (direct "
-             "kernel calls and the ASan-built f2py module under Python workloads), per-access region/rights/shadow-written monitor "
+             "kernel calls, the same generated calls through every f2py wrapper of the ASan-built module, and that module under "
+             "the Python workloads of six other checks), per-access region/rights/shadow-written monitor "
              "through -fsanitize=thread callbacks (vrt.c) under a controlled scheduler, poison-differential for output definedness")
-LEVEL_TEXT = ("Exploration: ~50 exported kernels driven through precondition-respecting generators at boundary sizes (2x2, 2xN, Nx2, "
-              "nnz 0/1, corners, empty rows, >16384 provisional labels, 0/1/4095..4097/8191..8193 peaks) at 1/4/64 threads; every "
-              "sanitizer report whose innermost in-library frame is in src/*.c, every monitor event and every undefined promised output is "
-              "a violation. Report blocks are counted from log files, not exit codes.")
+LEVEL_TEXT = ("Exploration: ~55 exported kernels driven through precondition-respecting generators at boundary sizes (2x2, 2xN, Nx2, "
+              "2x700, 1367x3, nnz 0/1, corners, empty rows, row/column indices up to 2047/4095/65534, >16384 provisional labels in "
+              "the dense (4- and 8-connected) and the sparse labellers in every tier, 0/1/4095..4097/8191..8193 peaks, zero-size calls, "
+              "label 0 pixels, out-of-range histogram values and boundscheck=1 indices, verbose=1, recompute=0) at 1/4/64 threads; "
+              "(connectivity, content) and the other case dimensions are stratified with coprime periods or drawn from the case rng; "
+              "every sanitizer report whose innermost in-library frame is in src/*.c, every monitor event and every undefined promised "
+              "output is a violation. Report blocks are counted from log files, not exit codes; blocks without a frame in the code "
+              "under test are counted and listed, not decided. Required input classes are enforced by counters.")
 LEVEL_NOTE = ("ASan red zones miss intra-object and far overflows (covered by the access monitor on the same calls); the monitor sees "
               "only compiler-instrumented accesses (not libc internals except the wrapped memset/malloc family); preconditions of each "
-              "kernel are those written in vlib/kspecs.py - ill-formed calls are out of scope.")
+              "kernel are those written in vlib/kspecs.py - ill-formed calls are out of scope (e.g. array_histogram with high == low, "
+              "undersized dimension(*) arrays, unsorted sparse patterns).  f2py refuses zero-length arrays for most wrappers, so "
+              "zero-size calls are decided by the direct layers only.  The AVX512 variant of tosparse_u16 is not compiled on this "
+              "build and is not exercised.  The poison differential runs at one thread (float reductions are order dependent).")
 
 RULE = ("a case = one kernel call (kernel, argument shapes, thread count, layer); non-trivial = call with at least one non-empty "
         "buffer; distinct = (layer, call descriptor)")
 
 ASAN_RERUN = ["C06", "C11", "C12", "C13", "C14", "C07"]
 
+# input classes (regular expressions over the class tags of vlib/kspecs.py) that the asan and the vrt layer must each have
+# driven at least once; every one of them is stratified on the round number, so 12 rounds always contain it
+REQUIRED = ["cp:capacity:con4", "cp:capacity:con8", "sparse:capacity", "sparse:bigcoord", "blob2D:label0", "histogram:outofrange",
+            "put_incr:outofrange", "score_gvec_z:recompute0", "mask_to_coo:nnz0", "bloboverlaps:nopeaks", "blob_moments:np0",
+            "coverlaps:npk0", "lml:.*:thin", "lml:(plateau|constant)", "closest_vec:n0", "closest:.*unsorted", "splat:rotated",
+            "meanvar:.*verbose", "cp:.*verbose"]
+# every (content, connectivity) combination of the dense labeller: the first/last-pixel and row-above branches are
+# asymmetric in both
+REQUIRED += ["cp:%s:con%d$" % (kind, c) for kind in ("bernoulli", "zeros", "full", "checker", "border") for c in (4, 8)]
+
+
+def kernel_sources():
+    """file names of the code under test: /repo/src/*.c plus the wrapper file f2py generates from the .pyf"""
+    from ..common import REPO
+    return set(os.path.basename(f) for f in glob.glob(os.path.join(REPO, "src", "*.c"))) | {"_cImageD11module.c"}
+
+
+def preload_asan():
+    """LD_PRELOAD value for a Python process under the ASan runtime.  libstdc++ must be loaded together with libasan:
+    otherwise the first C++ exception thrown by any extension module (matplotlib's ft2font does that on import) hits
+    "CHECK failed: real___cxa_throw != 0" inside the ASan interceptor and the whole workload dies with exit status 1"""
+    return build.gcc_file("libasan.so") + " " + build.gcc_file("libstdc++.so.6")
+
 
 def classify_asan(report):
     """(kind, top in-kernel frame) from an ASan/UBSan report block"""
+    srcs = kernel_sources()
     kind = "unknown"
     m = re.search(r"ERROR: AddressSanitizer: ([a-zA-Z\-]+)", report)
     if m:
@@ -42,7 +79,9 @@ def classify_asan(report):
             kind = "ubsan:" + re.sub(r"[0-9x]+", "N", m.group(1))[:60]
     frame = "?"
     for fm in re.finditer(r"#\d+ 0x[0-9a-f]+ in (\S+) (\S+?):(\d+)", report):
-        if "/src/" in fm.group(2) and "vlib/csrc" not in fm.group(2):
+        # a frame of the code under test = the file is one of its sources (the old test, "/src/" in the path, also
+        # matched the sanitizer runtime's own frames .../src/libsanitizer/asan/asan_rtl.cpp)
+        if os.path.basename(fm.group(2)) in srcs and "vlib/csrc" not in fm.group(2) and "libsanitizer" not in fm.group(2):
             frame = "%s@%s:%s" % (fm.group(1), os.path.basename(fm.group(2)), fm.group(3))
             break
     if frame == "?":
@@ -58,27 +97,72 @@ def run_child(args, env, timeout):
 
 
 def layer_kernels(run, mode, cfg, tmp):
+    t0 = time.time()
+    try:
+        _layer_kernels(run, mode, cfg, tmp)
+    finally:
+        run.extra.setdefault("layer_seconds", {})[mode] = round(time.time() - t0, 1)
+
+
+def _layer_kernels(run, mode, cfg, tmp):
     env = dict(os.environ)
     env["PYTHONPATH"] = VERIF
     env.pop("LD_PRELOAD", None)
-    if mode == "asan":
-        env["LD_PRELOAD"] = build.gcc_file("libasan.so")
-        cfg["log_path"] = os.path.join(tmp, "asan_k")
+    env["OMP_WAIT_POLICY"] = "passive"      # 64-thread teams on a shared machine: do not spin
+    if mode == "f2py":
+        try:
+            env = build.child_env("asan")
+        except Exception as e:
+            run.inconc("ASan module build failed: %s" % e)
+            return
+        env["OMP_WAIT_POLICY"] = "passive"
+        env.pop("VERIF_PROGRESS", None)
+    if mode in ("asan", "f2py"):
+        env["LD_PRELOAD"] = preload_asan()
+        cfg["log_path"] = os.path.join(tmp, "asan_k" if mode == "asan" else "asan_w")
         env["ASAN_OPTIONS"] = "detect_leaks=0:halt_on_error=0:log_path=%s:print_summary=1" % cfg["log_path"]
         env["UBSAN_OPTIONS"] = "print_stacktrace=1:halt_on_error=0:log_path=%s" % cfg["log_path"]
     p = run_child([PY, "-m", "vlib.kworker", json.dumps(cfg)], env, 3000)
     if p.returncode != 0:
         # a crash of the kernel driver is itself a finding about the code under test
-        run.violation("crash:%s" % mode, "kernel driver (%s layer) died with rc=%d: %s"
-                      % (mode, p.returncode, p.stderr.decode(errors="replace")[-600:]), dict(mode=mode))
+        key, what, rep = "crash:%s" % mode, "", ""
+        if cfg.get("log_path"):
+            # the sanitizer wrote its report before the process went down: say where it was
+            for f in sorted(glob.glob(cfg["log_path"] + "*")):
+                rep += open(f, errors="replace").read()
+            if rep:
+                kind, frame = classify_asan(rep)
+                key = "crash:%s:%s:%s" % (mode, kind, frame.split("@")[0] if "@" in frame else frame)
+                what = " [sanitizer log: %s at %s]" % (kind, frame)
+        run.violation(key, "kernel driver (%s layer) died with rc=%d%s: %s"
+                      % (mode, p.returncode, what, p.stderr.decode(errors="replace")[-600:]), dict(mode=mode, report=rep[:3000]))
         return
     try:
         out = json.loads(p.stdout.decode().strip().splitlines()[-1])
     except Exception as e:
         run.inconc("cannot parse output of %s layer: %s" % (mode, e))
         return
+    if out.get("error"):
+        run.inconc("%s layer: %s" % (mode, out["error"]))
+        return
+    classes = {}
     for k, v in out["counters"].items():
-        run.count(k, v)
+        if k.startswith("cls:"):
+            classes[k.split(":", 2)[2]] = v          # per-class call counts go to the evidence file as one table
+        else:
+            run.count(k, v)
+    run.extra.setdefault("input_classes", {})[mode] = classes
+    if mode in ("asan", "vrt"):
+        for pat in REQUIRED:
+            n = sum(v for k, v in classes.items() if re.match(pat, k))
+            run.count("classes_required_seen_%s" % mode, 1 if n else 0)
+            if not n:
+                run.inconc("%s layer never drove the required input class %r" % (mode, pat))
+    if mode == "f2py":
+        missing = sorted(set(out["kernels"]) - set(out.get("f2py_accepted", {})))
+        if missing:
+            run.inconc("f2py layer: the wrappers of %s accepted none of the generated calls" % ", ".join(missing))
+        run.extra["f2py_wrapper_refusals"] = out.get("f2py_refused", {})
     run.extra.setdefault("kernels_driven", {})[mode] = out["kernels"]
     run.extra.setdefault("call_samples", {})[mode] = out["samples"]
     if out.get("schedule_dependent_observed"):
@@ -91,7 +175,15 @@ def layer_kernels(run, mode, cfg, tmp):
     for vio in out["violations"]:
         if vio["key"] == "pending":
             kind, frame = classify_asan(vio["report"])
-            key = "asan:%s:%s" % (kind, frame.split("@")[0] if "@" in frame else frame)
+            if mode == "f2py" and frame == "?" and "_cImageD11" not in vio["report"]:
+                # same rule as the workload re-runs: a block without any frame in the extension module is numpy/python
+                # business; counted and listed, not decided
+                run.count("asan_module_reports_without_kernel_frame")
+                lst = run.extra.setdefault("asan_module_reports_without_kernel_frame", [])
+                if len(lst) < 5:
+                    lst.append(dict(workload="f2py wrappers", head=vio["report"][:400]))
+                continue
+            key = "%s:%s:%s" % ("asan-f2py" if mode == "f2py" else "asan", kind, frame.split("@")[0] if "@" in frame else frame)
             run.violation(key, "%s at %s during %s" % (kind, frame, vio["what"]), dict(vio["replay"], report=vio["report"][:1500]))
         else:
             run.violation(vio["key"], vio["what"], vio["replay"])
@@ -104,8 +196,10 @@ def layer_asan_module(run, tmp, tier):
     except Exception as e:
         run.inconc("ASan module build failed: %s" % e)
         return
-    for prop in ASAN_RERUN:
+    def rerun(prop):
+        t0 = time.time()
         env = dict(env0)
+        env["LD_PRELOAD"] = preload_asan()
         lp = os.path.join(tmp, "asan_mod_%s" % prop)
         env["ASAN_OPTIONS"] = "detect_leaks=0:halt_on_error=0:log_path=%s" % lp
         env["UBSAN_OPTIONS"] = "print_stacktrace=1:halt_on_error=0:log_path=%s" % lp
@@ -117,12 +211,28 @@ def layer_asan_module(run, tmp, tier):
         try:
             p = run_child([PY, "-m", "vlib.runner", prop], env, 2400)
         except subprocess.TimeoutExpired:
+            p = None
+        return prop, p, lp, round(time.time() - t0, 1)
+
+    # the workloads are independent processes with their own log files: four at a time (the results are merged into
+    # the Run object below, in the fixed order of ASAN_RERUN)
+    from concurrent.futures import ThreadPoolExecutor
+    with ThreadPoolExecutor(max_workers=4) as ex:
+        results = list(ex.map(rerun, ASAN_RERUN))
+    for prop, p, lp, secs in results:
+        run.extra.setdefault("layer_seconds", {})["asan-module:" + prop] = secs
+        if p is None:
             run.inconc("ASan re-run of %s timed out" % prop)
             continue
         run.count("asan_module_workloads")
         m = re.search(r"evaluations=(\d+)", p.stdout.decode(errors="replace"))
         if m:
             run.count("asan_module_cases", int(m.group(1)))
+        elif p.returncode in (0, 1, 2):
+            # no summary line: the workload ended before its runner finished (the sanitizer runtime exits with status 1
+            # on its own internal errors, the C code calls exit(0) in boundscheck): this layer saw less than it claims
+            run.inconc("ASan re-run of %s ended without a summary line (rc=%d): %s"
+                       % (prop, p.returncode, p.stderr.decode(errors="replace")[-300:]))
         if p.returncode not in (0, 1, 2):
             run.violation("crash:asan-module:%s" % prop, "workload of %s died inside the ASan process rc=%d: %s"
                           % (prop, p.returncode, p.stderr.decode(errors="replace")[-500:]), dict(workload=prop))
@@ -135,7 +245,13 @@ def layer_asan_module(run, tmp, tier):
                     continue
                 kind, frame = classify_asan(b)
                 if frame == "?" and "_cImageD11" not in b:
-                    continue      # not in the code under test (numpy/python internals)
+                    # no frame of the block lies in the code under test (numpy/python internals): not decided here, but
+                    # counted and shown so that a report without usable frames cannot disappear unnoticed
+                    run.count("asan_module_reports_without_kernel_frame")
+                    lst = run.extra.setdefault("asan_module_reports_without_kernel_frame", [])
+                    if len(lst) < 5:
+                        lst.append(dict(workload=prop, head=b[:400]))
+                    continue
                 nrep += 1
                 run.violation("asan-module:%s:%s" % (kind, frame.split("@")[0] if "@" in frame else frame),
                               "%s at %s while running the %s workload on the ASan f2py module" % (kind, frame, prop),
@@ -150,18 +266,31 @@ def check(run, replay=None):
     try:
         quick = run.tier == "quick"
         rounds = 12 if quick else 120
-        layer_kernels(run, "asan", dict(mode="asan", seed=run.seed, rounds=rounds, threads=[1, 4] if quick else [1, 4, 64]), tmp)
-        layer_kernels(run, "vrt", dict(mode="vrt", seed=run.seed, rounds=rounds, directed_runs=1 if quick else 3,
-                                       threads=[[1, 0], [4, 1], [3, 4]] if quick else [[1, 0], [4, 1], [3, 4], [64, 1], [8, 4]]), tmp)
+        # VERIF_C20_LAYERS=asan,f2py,vrt,poison,module,tsan restricts the run to some layers (used to validate the oracles
+        # against mutants quickly); a restricted run can report violations but never "held"
+        want = set(x for x in os.environ.get("VERIF_C20_LAYERS", "").split(",") if x)
+        on = lambda name: not want or name in want
+        # the sanitizer layers are cheap (no per-access callback): twice the rounds, and 64 threads (threads >> rows, the
+        # per-thread lo/hi split of localmaxlabel) also in the quick tier
+        if on("asan"):
+            layer_kernels(run, "asan", dict(mode="asan", seed=run.seed, rounds=2 * rounds, threads=[1, 4, 64]), tmp)
+        if on("f2py"):
+            layer_kernels(run, "f2py", dict(mode="f2py", seed=run.seed, rounds=2 * rounds, threads=[1, 4]), tmp)
+        if on("vrt"):
+            layer_kernels(run, "vrt", dict(mode="vrt", seed=run.seed, rounds=rounds, directed_runs=1 if quick else 3,
+                                           threads=[[1, 0], [4, 1], [3, 4]] if quick else [[1, 0], [4, 1], [3, 4], [64, 1], [8, 4]]), tmp)
         # one thread: OpenMP float reductions combine in completion order, so multi-threaded runs differ in the last bit
         # from run to run for reasons that have nothing to do with the buffer content (DESIGN.md Corrections)
-        layer_kernels(run, "poison", dict(mode="poison", seed=run.seed, rounds=rounds, threads=[1]), tmp)
-        if replay is None:
+        if on("poison"):
+            layer_kernels(run, "poison", dict(mode="poison", seed=run.seed, rounds=rounds, threads=[1]), tmp)
+        if replay is None and on("module"):
             layer_asan_module(run, tmp, run.tier)
+        if replay is None and on("tsan"):
             # ThreadSanitizer inventory of the OpenMP kernels (pthread GOMP shim): evidence, not a verdict - the property
             # speaks about address and undefined-behaviour sanitizers; schedule-dependence of results is decided in C01/C06/
             # C07/C11/C13
             inv = {}
+            t0 = time.time()
             for kern in ("score_and_assign", "connectedpixels", "compute_gv", "localmaxlabel"):
                 env = dict(os.environ)
                 env["PYTHONPATH"] = VERIF
@@ -174,7 +303,12 @@ def check(run, replay=None):
                 except Exception as e:
                     inv[kern] = "failed: %s" % e
             run.extra["tsan_race_inventory"] = inv
+            run.extra.setdefault("layer_seconds", {})["tsan-inventory"] = round(time.time() - t0, 1)
+        if want:
+            run.inconc("partial run: VERIF_C20_LAYERS=%s" % ",".join(sorted(want)))
         run.require_counter("asan_calls", 200)
+        run.require_counter("f2py_calls", 500)
+        run.require_counter("f2py_hidden_dimension_arguments", 500)
         run.require_counter("vrt_accesses_checked", 10000)
         run.require_counter("outputs_checked_for_definedness", 100)
     finally:
